@@ -18,5 +18,6 @@ INVARIANT LawTermNamesFunction
 INVARIANT ImplMapRefinesReq
 INVARIANT LawEvaluatedClips
 INVARIANT LawExtrasWellFormed
+INVARIANT LawUnmatched
 INVARIANT LawComputed
 CHECK_DEADLOCK FALSE
